@@ -627,7 +627,13 @@ def evaluate__sort(self: XPathFunction, context: ta.ContextType = None) -> ta.Va
         key_function = get_key_function(collation, token=self)
 
     try:
-        return xlist(sorted(self[0].select(context), key=key_function))
+        if len(self) == 3:
+            return xlist(sorted(self[0].select(context), key=key_function))
+
+        # the default sort key is fn:data#1: the atomized item
+        items = [x for x in self[0].select(context)]
+        keys = [key_function([v for v in self.atomize_item(x)]) for x in items]
+        return xlist(items[k] for k in sorted(range(len(items)), key=keys.__getitem__))
     except ElementPathTypeError:
         raise
     except TypeError:
@@ -663,7 +669,13 @@ def evaluate__array_sort(self: XPathFunction, context: ta.ContextType = None) \
         key_function = get_key_function(collation, token=self)
 
     try:
-        items = sorted(array_.items(context), key=key_function)
+        if len(self) == 3:
+            items = sorted(array_.items(context), key=key_function)
+        else:
+            # the default sort key is fn:data#1: the atomized member
+            members = array_.items(context)
+            keys = [key_function([v for v in self.atomize_item(x)]) for x in members]
+            items = [members[k] for k in sorted(range(len(members)), key=keys.__getitem__)]
     except ElementPathTypeError:
         raise
     except TypeError:
